@@ -22,7 +22,11 @@ def carries_line(e, fi):
         while f.parent is not None:
             f = f.parent
             outer |= {a.arg for a in f.node.args.args}
-        if e.id != "lineno" or e.id not in (params | outer):
+        if e.id not in (params | outer):
+            # a local that holds a line: every definition of it is itself a line-carrying expression (`arg_lineno = value.lineno`)
+            defs = [n.value for n in own_nodes(fi.node) if isinstance(n, ast.Assign) and any(isinstance(t_, ast.Name) and t_.id == e.id for t_ in n.targets)]
+            return bool(defs) and all(not isinstance(d_, ast.Name) and carries_line(d_, fi) for d_ in defs)
+        if e.id != "lineno":
             return False
         if e.id in params:
             # the name must still denote the parameter here: a local rebinding (e.g. to an argument's line) makes it the
@@ -109,7 +113,19 @@ def newline_increment(rule):
             c = CFG(fn)
             augs = [x for x in c.find("aug") if x.ast is n]
             rewrites = [x for x in c.find("store") if x.meta.get("attr") == "value" and isinstance(x.ast.value, ast.Name) and x.ast.value.id == t]
-            if augs and any(augs[0] in c.reachable(w) for w in rewrites):
+            def reads_rewritten():
+                """does the increment read <t>.value itself after a rewrite, or only a local copy taken before any rewrite?"""
+                direct = any(isinstance(x, ast.Attribute) and x.attr == "value" and isinstance(x.value, ast.Name) and x.value.id == t for x in ast.walk(n.value))
+                if direct:
+                    return True
+                for nm in K.names_in(n.value):
+                    defs = [x for x in c.find("store") if x.meta.get("name") == nm]
+                    for d_ in defs:
+                        if any(d_ in c.reachable(w) for w in rewrites):
+                            return True  # the copy itself is taken after a rewrite
+                return False
+
+            if augs and any(augs[0] in c.reachable(w) for w in rewrites) and reads_rewritten():
                 return "after-rewrite", s
             if s == "len(%s)" % v:
                 return "len", s
@@ -266,6 +282,10 @@ def run(ctx, idx):
         if isinstance(lexarg, ast.Attribute) and isinstance(lexarg.value, ast.Call) and "Lexer" in K.src(lexarg.value.func):
             fresh = True
         ok = fresh or cfg.must_pass_through(cfg.entry, c, set(resets)) and bool(resets)
+        if not ok:
+            computed = cfg.find("store", lambda n: n.meta.get("attr") == "lineno" and n.meta.get("value") is not None and not isinstance(n.meta.get("value"), ast.Constant))
+            if computed and cfg.must_pass_through(cfg.entry, c, set(computed)):
+                raise AnalysisError("C11.a: the lexer's line counter is set to a computed value (`%s`) before parsing: cannot decide whether it is the line of the first character handed to the lexer" % K.src(computed[0].meta["value"])[:80])
         clone = lexarg is not None and ".clone(" in K.src(lexarg)
         ctx.ob("C11.a", con + "::counter-reset", K.rel(fi), c.line, ok and not clone,
                "line counter reset to 1 (or a fresh lexer) on every path to the parse call" if ok and not clone else
@@ -488,6 +508,14 @@ def run(ctx, idx):
             fs_calls = [n for n in s_all if isinstance(n, ast.Call) and isinstance(n.func, ast.Attribute) and n.func.attr == "from_source"]
             ok_src = bool(fs_calls) and all(c.args and isinstance(c.args[0], ast.Name) and c.args[0].id in src_names for c in fs_calls)
             rebinds = [n for n in s_all if isinstance(n, ast.Assign) and any(isinstance(t, ast.Name) and t.id == lines_name for t in n.targets)]
+            if not ok_src and len(rebinds) == 1 and fs_calls:
+                # the other direction: the line table is the parsed text itself split at line feeds (`lines = source.split("\n")`;
+                # splitlines() would also split at form feeds, \x1c-\x1e, \x85, U+2028/9, which the lexer does not count)
+                d_ = rebinds[0].value
+                if isinstance(d_, ast.Call) and isinstance(d_.func, ast.Attribute) and d_.func.attr == "split" and len(d_.args) == 1 and isinstance(d_.args[0], ast.Constant) and d_.args[0].value == "\n" and isinstance(d_.func.value, ast.Name) \
+                        and all(c.args and isinstance(c.args[0], ast.Name) and c.args[0].id == d_.func.value.id for c in fs_calls):
+                    src_rebinds = [n for n in s_all if isinstance(n, ast.Assign) and any(isinstance(t, ast.Name) and t.id == d_.func.value.id for t in n.targets)]
+                    ok_src = len(src_rebinds) == 1
             ok = ok_ix and ok_src and len(rebinds) == 1
             why = "--> marks %s[ex.lineno - 1]; the same list was joined with LF into the parsed source" % lines_name if ok else (
                 "the marked index is `%s`, not ex.lineno - 1" % ix_src if not ok_ix else "the text handed to from_source is not the LF-join of the very list `%s` that is indexed" % lines_name)
